@@ -226,3 +226,27 @@ def edited_schema_history(run, judge, rounds):
             judge(fcp, sch2, "Cfg", v, text2, "edited|after %s" % edit)
         run.count("schemas_edited_in_place_between_calls")
 
+
+def provoke_faults(run, fcp, sch, name, v, k):
+    """History: calls that FAIL part-way on this schema object right before a valid call is judged - an
+    encode of a value that lacks its last key / holds a string where a number belongs (fields before it
+    are already written when it raises), and a decode of a cut input.  Whatever they leave behind in
+    module- or object-level state must not reach the next call."""
+    import copy
+    from fcp import serde
+
+    fields = sch.fields_by_id(name)
+    if not isinstance(v, dict) or not fields:
+        return
+    broken = copy.deepcopy(v)
+    last = fields[-1]["name"]
+    if k % 2:
+        broken.pop(last, None)
+    else:
+        broken[last] = "not a %s" % fields[-1]["type"][0] if fields[-1]["type"][0] != "str" else 12.5
+    for call in (lambda: serde.encode(fcp, name, broken), lambda: serde.decode(fcp, name, bytearray(b"\x01"))):
+        try:
+            call()
+        except Exception:
+            run.count("failed_calls_before_a_judged_call")
+
